@@ -271,10 +271,13 @@ Section Bridge.
   Qed.
 
   (** a field of the IR: the parse of its printed tokens is [fi_pty] *)
-  Lemma field_pty_fi_pty f : tp_plain (fi_path f) = true -> Unparse.field_pty s f = fi_pty asegs f.
+  Lemma field_pty_fi_pty f :
+    tp_plain (fi_path f) = true -> fi_compact f && fi_boxed f = false ->
+    Unparse.field_pty s f = fi_pty asegs f.
   Proof.
-    intros Hp. unfold Unparse.field_pty, fi_pty. fold alloc. rewrite (ir_pty_tpath_pty _ Hp).
-    destruct (fi_boxed f); [|reflexivity]. apply alloc_path_pty. discriminate.
+    intros Hp Hcb. unfold Unparse.field_pty, fi_pty, fi_emit_boxed. fold alloc. rewrite (ir_pty_tpath_pty _ Hp).
+    destruct (fi_boxed f); cbn [andb]; [|reflexivity].
+    rewrite andb_true_r in Hcb. rewrite Hcb. cbn [negb]. apply alloc_path_pty. discriminate.
   Qed.
 End Bridge.
 
@@ -291,7 +294,7 @@ Lemma normal_field_compact defs s otp f :
   field_conv_okb f = true -> fi_compact (normal_field defs s otp f) = field_compact f.
 Proof.
   intros Hc. unfold normal_field, field_compact. cbn [fi_compact].
-  unfold field_conv_okb in Hc.
+  unfold field_conv_okb in Hc. apply andb_prop in Hc as [Hc _]. unfold field_conv_core in Hc.
   destruct (sf_compact_attr f) eqn:Ea; [reflexivity|]. cbn [orb].
   rewrite is_compact_src_tpath.
   destruct (sf_ty f) as [i|d' xs|x|x|len x|xs|p|x|x|x|a b|a b|x|x|x|st lsb]; peel_fin Hc.
@@ -347,7 +350,13 @@ Section SourceItem.
 
   Lemma emitted_field_pty f : fld_ok f -> Unparse.field_pty s (nf f) = exp_field_pty f.
   Proof.
-    intros (Ha & Hc & Hp). rewrite (field_pty_fi_pty defs s Hrender Halloc _ Hp).
+    intros (Ha & Hc & Hp).
+    assert (Hcb : fi_compact (nf f) && fi_boxed (nf f) = false).
+    { unfold nf. rewrite (normal_field_compact defs s otp f Hc).
+      unfold normal_field. cbn [fi_boxed]. unfold field_conv_okb in Hc.
+      apply andb_prop in Hc as [_ Hub]. apply negb_true_iff in Hub.
+      unfold field_compact. rewrite <- andb_assoc in Hub. exact Hub. }
+    rewrite (field_pty_fi_pty defs s Hrender Halloc _ Hp Hcb).
     apply field_reading; assumption.
   Qed.
 
